@@ -369,7 +369,10 @@ def main(argv=None):
                     bump(2)
     # ---------------------------------------------------------------- replay refutations natively
     os.makedirs(os.path.join(HERE, "replays", prop), exist_ok=True)
-    njobs = [dict(module=o["module"], case=o["case"], prims=o["prims"]) for o in refuted if o["prims"] is not None]
+    # repeat: the call is evaluated twice in the replaying process; a clause that fails only on the SECOND call (state
+    # left behind by the first: registries, memo slots) is a failing history of two calls on the real code
+    njobs = [dict(module=o["module"], case=o["case"], prims=o["prims"], repeat=True) for o in refuted
+             if o["prims"] is not None]
     try:
         nres = run_native(njobs)
     except Exception as ex:
@@ -596,7 +599,7 @@ def replay_file(path):
         print("no concrete inputs in this replay file (no-failing-input-found); solver output:")
         print(d.get("solver_detail"))
         return 1
-    res = run_native([dict(module=d["module"], case=d["case"], prims=d["prims"])])[0]
+    res = run_native([dict(module=d["module"], case=d["case"], prims=d["prims"], repeat=True)])[0]
     print(json.dumps(res, indent=1))
     ok = res.get("checks", {}).get(d["clause"])
     print(f"clause {d['clause']} natively: {ok}")
